@@ -440,12 +440,33 @@ def streams(rng, tier):
                   rule="tretry <type> <value>: to_vec of one object, then encode into slices ending after 0..23 and len-1 bytes (each refused), to_vec and "
                        "minicbor::len again after each: always the first bytes (= the model's), always the same length")
     str_.shrinkable = False
+    # the IANA tag names: an independent table (RFC 8949 section 3.4, RFC 8746) against the numbers the library writes and recognises
+    IANA = {"DateTime": 0, "Timestamp": 1, "PosBignum": 2, "NegBignum": 3, "Decimal": 4, "Bigfloat": 5, "ToBase64Url": 21, "ToBase64": 22, "ToBase16": 23,
+            "Cbor": 24, "Uri": 32, "Base64Url": 33, "Base64": 34, "Regex": 35, "Mime": 36, "MultiDimArrayR": 40, "HomogenousArray": 41, "TypedArrayU8": 64,
+            "TypedArrayU16B": 65, "TypedArrayU32B": 66, "TypedArrayU64B": 67, "TypedArrayU8Clamped": 68, "TypedArrayU16L": 69, "TypedArrayU32L": 70,
+            "TypedArrayU64L": 71, "TypedArrayI8": 72, "TypedArrayI16B": 73, "TypedArrayI32B": 74, "TypedArrayI64B": 75, "TypedArrayI16L": 77,
+            "TypedArrayI32L": 78, "TypedArrayI64L": 79, "TypedArrayF16B": 80, "TypedArrayF32B": 81, "TypedArrayF64B": 82, "TypedArrayF128B": 83,
+            "TypedArrayF16L": 84, "TypedArrayF32L": 85, "TypedArrayF64L": 86, "TypedArrayF128L": 87, "MultiDimArrayC": 1040}
+    def judge_iana(op, impl, model, spec):
+        rows = dict(x.split("=", 1) for x in impl.split(",") if "=" in x)
+        if set(rows) != set(IANA):
+            return "violation"
+        for n, v in IANA.items():
+            if rows[n] != f"{v}/{gen.head(6, v).hex()}/{n}":
+                return "violation"
+        return "ok"
+    sia = Stream("iana-tags", "hcore", ["iana all"], model_ops=["nop"], judge=judge_iana, nontrivial=lambda op, impl: "=" in impl,
+                 rule="iana all: every IanaTag variant: the number it stands for (independent table: RFC 8949 3.4, RFC 8746; 76 is reserved), the shortest head "
+                      "Encoder::tag writes for it, and the variant TryFrom<Tag> gives back for that number")
+    sia.shrinkable = False
     # determinism: the same ops a second time must give the same bytes
     from verifkit.props import C13
-    return [st, sti, stt, stb, str_, balanced_stream(rng, tier), balanced_split_stream(rng, tier), C13.tovec_stream(rng, tier), Stream("encoder-methods-again", "hcore", ops[::7], rule="every 7th op of the first stream, run again in a fresh process")]
+    return [st, sti, stt, stb, str_, sia, balanced_stream(rng, tier), balanced_split_stream(rng, tier), C13.tovec_stream(rng, tier), Stream("encoder-methods-again", "hcore", ops[::7], rule="every 7th op of the first stream, run again in a fresh process")]
 
 
 def replay_streams(rp):
+    if rp["original_op"].startswith("iana"):
+        return [s for s in streams(__import__("random").Random(1), "quick") if s.name == "iana-tags"]
     if rp["original_op"].startswith("tretry"):
         return [Stream("replay", "hcore", [rp["original_op"]], model_ops=[rp.get("model_op") or "nop"],
                        judge=lambda op, impl, model, spec: "ok" if impl.startswith("same ") and impl[5:] == model.split(" ")[0] else "violation")]
